@@ -17,15 +17,17 @@
 #include "../eventpolicies.h"
 
 #include <vector>
+#include <list>
 #include <algorithm>
 
 namespace eventpp {
 
 namespace internal_ {
 
-template <typename Item, typename Handle, typename Mutex>
-bool removeHandleFromScopedRemoverItemList(std::vector<Item> & itemList, Handle & handle, Mutex & mutex)
+template <typename ItemList, typename Handle, typename Mutex>
+bool removeHandleFromScopedRemoverItemList(ItemList & itemList, Handle & handle, Mutex & mutex)
 {
+	using Item = typename ItemList::value_type;
 	if(! handle) {
 		return false;
 	}
@@ -204,7 +206,10 @@ public:
 
 private:
 	DispatcherType * dispatcher;
-	std::vector<Item> itemList;
+	// A list, not a vector: an Item holds a copy of the user's event type, and erasing from the middle of a vector
+	// assigns the following elements. If that assignment throws, the records are left shifted half way
+	// and listeners stay attached that no record accounts for. Erasing from a list copies nothing.
+	std::list<Item> itemList;
 	typename DispatcherType::Mutex itemListMutex;
 };
 
